@@ -74,7 +74,7 @@ impl JulianDay {
     d -= (365.25 * (year as f64)) as isize;
     let mut month: isize = ((d as f64) / 30.601) as isize;
     d -= (30.601 * (month as f64)) as isize;
-    let mut day: isize = d;
+    let day: isize = d;
     if month > 13 {
       month -= 13;
       year -= 4715;
@@ -100,11 +100,13 @@ impl JulianDay {
       minute -= 60;
       hour += 1
     }
+    let mut solar_day: SolarDay = SolarDay::from_ymd(year, month as usize, day as usize);
     if hour > 23 {
       hour -= 24;
-      day += 1
+      // 进位到下一天：月末、年末、1582年10月4日之后不能简单地日+1
+      solar_day = solar_day.next(1);
     }
-    SolarTime::from_ymd_hms(year, month as usize, day as usize, hour as usize, minute as usize, second as usize)
+    SolarTime::from_ymd_hms(solar_day.get_year(), solar_day.get_month(), solar_day.get_day(), hour as usize, minute as usize, second as usize)
   }
 
   /// 儒略日相减
